@@ -110,5 +110,5 @@ def run(ctx):
 
 
 def replay(ctx, payload):
-    print("replay: re-run `./check C09`; script: %s" % (payload.get("replay") or payload.get("first_disagreement") or {}).get("script"))
-    return 2
+    from .. import pat_props as _pp
+    return _pp.replay(ctx, payload)
